@@ -32,7 +32,7 @@ func init() {
 			if tier == "thorough" {
 				n, pp = 3, 4
 			}
-			for _, op := range []string{"select_perm", "select_unknown", "drop", "drop_none", "slice", "copy_new", "copy_replace", "copy_self", "copy_unknown", "copy_badname"} {
+			for _, op := range []string{"select_perm", "select_unknown", "drop", "drop_dup", "copy_siblings", "drop_none", "slice", "copy_new", "copy_replace", "copy_self", "copy_unknown", "copy_badname"} {
 				jobs = append(jobs, Job{Harness: "VX_C08_project", Params: P("op", op, "n", itoa(n), "P", itoa(pp))})
 			}
 			jobs = append(jobs, Job{Harness: "VX_C08_pointer"})
@@ -246,7 +246,7 @@ func init() {
 			for _, s := range steps {
 				jobs = append(jobs, Job{Harness: "VX_C06_apply", Params: P("steps", s, "mode", "apply", "n", itoa(n), "P", itoa(pp))})
 			}
-			for _, s := range []string{"const_int:z", "const_int:a", "fn1:z:a::int>float", "fn1:a:a::int>int", "fn2:z:a:b:int", "fn1:z:s::string>string", "copy:z:f", "const_string:s", "fn1:z:a::int>int;fn1:y:z::int>float"} {
+			for _, s := range []string{"const_int:z", "const_int:a", "fn1:z:a::int>float", "fn1:a:a::int>int", "fn2:z:a:b:int", "fn1:z:s::string>string", "copy:z:f", "const_string:s", "fn1:z:a::int>int;fn1:y:z::int>float", "upper:z:s", "upper:s:s", "upper:z:e", "upper:e:e"} {
 				jobs = append(jobs, Job{Harness: "VX_C06_apply", Params: P("steps", s, "mode", "filtered", "n", itoa(n), "P", itoa(pp))})
 			}
 			jobs = append(jobs, Job{Harness: "VX_C06_apply", Params: P("steps", "", "mode", "rownums", "n", itoa(n), "P", itoa(pp))})
@@ -320,7 +320,7 @@ func c07exprs(tier string) []string {
 		"( - a b #i )", "( u2 a #i b )", "( u2 #i a b )", "( - a b a b )", "( u2 ( - a b ) #i b )", "( + a ( - a b ) #i )",
 		"( - f g )", "( - #f f )", "( u2 #f f )", "( u2 f #f )", "( + f g f )", "( u1 f )",
 		"( & c d )", "( nand #b c )", "( ! c )", "( | c ( ! d ) )", "( u2 #b c )", "( u2 c #b )", "( int c )",
-		"( + s t )", "( + s #s )", "( + #s s )", "( len s )", "( + s t s )", "( len ( + s #s ) )", "( str s )",
+		"( + s t )", "( + s #s )", "( + #s s )", "( len s )", "( + s t s )", "( len ( + s #s ) )", "( str s )", "( us s )", "( us e )", "( len e )",
 		"a", "#i", "#s", "f", "s", "#b",
 	)
 	return out
@@ -377,7 +377,7 @@ func init() {
 			if tier == "thorough" {
 				n, pp = 3, 4
 			}
-			jobs := []Job{{Harness: "VX_C09_observe", Params: P("n", itoa(n), "P", itoa(pp))}, {Harness: "VX_C09_observe", Params: P("n", "3", "P", "3", "ix", "swap01")}, {Harness: "VX_C09_observe", Params: P("n", "2", "P", "3", "pre", "select_copy")}}
+			jobs := []Job{{Harness: "VX_C09_observe", Params: P("n", itoa(n), "P", itoa(pp))}, {Harness: "VX_C09_observe", Params: P("n", "3", "P", "3", "ix", "swap01")}, {Harness: "VX_C09_observe", Params: P("n", "2", "P", "3", "pre", "select_copy")}, {Harness: "VX_C09_observe", Params: P("n", "2", "P", "3", "pre", "siblings")}, {Harness: "VX_C09_observe", Params: P("n", "4", "P", "4", "ix", "mid")}}
 			for _, sk := range []string{"ifb", "se", "i"} {
 				p2 := pp
 				if sk == "se" && tier != "thorough" {
@@ -440,7 +440,7 @@ func init() {
 var c01ops = []string{"filter", "filter_or", "filter_notand", "filter_inv", "sort", "sort2", "slice", "slice_tail", "select", "drop", "copy", "copy_over",
 	"apply_fn1", "apply_fn2", "apply_const", "apply_upper", "filtered_apply", "eval", "rownums", "distinct", "aggregate", "qframes",
 	"copy_y", "rownums_new", "eval_new", "apply_new", "aggregate_nokey", "qframes_aggregate",
-	"grouper_aggregate", "filter_ilike", "filter_like_regex", "eval_ctx", "tosql", "views", "tocsv", "tojson", "string", "equals"}
+	"grouper_aggregate", "filter_ilike", "filter_like_regex", "eval_ctx", "tosql", "filter_promote", "distinct_float", "groupby_float", "views", "tocsv", "tojson", "string", "equals"}
 
 func c01jobs(tier string, strict bool) []Job {
 	var jobs []Job
@@ -461,7 +461,7 @@ func c01jobs(tier string, strict bool) []Job {
 		jobs = append(jobs, Job{Harness: "VX_C01_persist", Params: P("ops", "x_append_spare", "n", itoa(n), "P", itoa(pp), "strict", st), ExpectSat: true})
 	}
 	pairs := []string{"slice,sort", "slice,filter_or", "sort,slice", "filter,apply_fn1", "slice,filter_notand", "sort,sort2", "copy,apply_fn2", "select,copy", "filter,distinct", "slice,qframes", "apply_fn1,eval", "slice_tail,filter", "filter,filter_inv", "slice,aggregate", "sort,filtered_apply", "rownums,sort",
-		"copy,copy_y", "copy,rownums_new", "apply_new,eval_new", "eval_new,copy", "rownums_new,apply_new", "copy,copy_y,apply_new", "sort,aggregate_nokey", "slice,aggregate_nokey", "sort,qframes_aggregate", "filter_ilike,filter_ilike", "filter_like_regex,filter_like_regex", "grouper_aggregate,grouper_aggregate", "tosql,tosql"}
+		"copy,copy_y", "copy,rownums_new", "apply_new,eval_new", "eval_new,copy", "rownums_new,apply_new", "copy,copy_y,apply_new", "sort,aggregate_nokey", "slice,aggregate_nokey", "sort,qframes_aggregate", "filter_promote,sort", "filter_ilike,filter_ilike", "filter_like_regex,filter_like_regex", "grouper_aggregate,grouper_aggregate", "tosql,tosql"}
 	if tier == "thorough" {
 		for _, a := range []string{"slice", "sort", "filter", "slice_tail", "copy", "apply_fn1"} {
 			for _, b := range c01ops {
@@ -483,9 +483,9 @@ func init() {
 		Jobs:   func(tier string) []Job { return c01jobs(tier, false) },
 		Bounds: func(tier string) string {
 			if tier == "thorough" {
-				return "family {base (P=5 rows, shared column storage via Copy), f0 = permuted+sliced frame with spare index capacity (n=4), results}; numeric cells symbolic, string/enum cells concrete; every one of 38 operations as single step; 6x27 two-step histories applied both to the newest member and to the shared ancestor; 5 three-step histories; every member re-observed (Len, names, types, Err, every cell through the typed views) after every step"
+				return "family {base (P=5 rows, shared column storage via Copy), f0 = permuted+sliced frame with spare index capacity (n=4), results}; numeric cells symbolic, string/enum cells concrete; every one of 41 operations as single step; 6x27 two-step histories applied both to the newest member and to the shared ancestor; 5 three-step histories; every member re-observed (Len, names, types, Err, every cell through the typed views) after every step"
 			}
-			return "family {base (P=4 rows, shared column storage via Copy), f0 = permuted+sliced frame with spare index capacity (n=3), results}; numeric cells symbolic, string/enum cells concrete; every one of 38 operations as single step; 16 two-step histories applied both to the newest member and to the shared ancestor; every member re-observed after every step"
+			return "family {base (P=4 rows, shared column storage via Copy), f0 = permuted+sliced frame with spare index capacity (n=3), results}; numeric cells symbolic, string/enum cells concrete; every one of 41 operations as single step; 16 two-step histories applied both to the newest member and to the shared ancestor; every member re-observed after every step"
 		},
 		Assume:   []string{"frames are built through New/Copy/withIndex/Slice so that column storage and index storage are shared", "user functions uninterpreted; hash uninterpreted"},
 		Outside:  []string{"histories longer than 3; more than 3 physical rows", "Append, Rolling"},
@@ -536,7 +536,7 @@ func init() {
 				jobs = append(jobs, Job{Harness: "VX_C12_infer", Params: P("rows", "1", "emptynull", en), MaxPaths: 500000})
 				jobs = append(jobs, Job{Harness: "VX_C12_infer", Params: P("rows", "2", "emptynull", en), MaxPaths: 500000})
 			}
-			for _, c := range []string{"headers", "ignore_empty", "empty_kept_single_col", "rename_dup", "missing_alias", "delimiter", "enum_declared", "typed_failure", "column_count", "rowcount_hint"} {
+			for _, c := range []string{"headers", "ignore_empty", "empty_kept_single_col", "rename_dup", "rename_dup_later", "enum_map_reuse", "missing_alias", "delimiter", "enum_declared", "typed_failure", "column_count", "rowcount_hint"} {
 				jobs = append(jobs, Job{Harness: "VX_C12_options", Params: P("case", c), MaxSteps: 80000000})
 			}
 			return jobs
@@ -601,6 +601,9 @@ func init() {
 			for _, cmp := range []string{"like", "ilike"} {
 				for _, pat := range []string{"b", "%b", "b%", "%b%", "B", "%", "b.", "%(", ""} {
 					jobs = append(jobs, Job{Harness: "VX_C18_columns", Params: P("cmp", cmp, "pattern", pat)})
+					if pat == "b%" || pat == "b." || pat == "B" {
+						jobs = append(jobs, Job{Harness: "VX_C18_columns", Params: P("cmp", cmp, "pattern", pat, "ctx", "or")})
+					}
 				}
 			}
 			return jobs
@@ -658,6 +661,10 @@ func init() {
 			for _, D := range []int{3, 253, 254, 255} {
 				jobs = append(jobs, Job{Harness: "VX_C17_derived", Params: P("D", itoa(D))})
 			}
+			for _, D := range []int{3, 254, 255} {
+				jobs = append(jobs, Job{Harness: "VX_C17_csv_derived", Params: P("D", itoa(D)), MaxSteps: 200000000})
+			}
+			jobs = append(jobs, Job{Harness: "VX_C17_csv_declared", Params: P()})
 			return jobs
 		},
 		Bounds: func(tier string) string {
@@ -734,6 +741,7 @@ func init() {
 			jobs = append(jobs, Job{Harness: "VX_C14_tojson", Params: P("shape", "mixed", "namelen", "0", "n", "2", "strlen", "1"), MaxPaths: 300000})
 			jobs = append(jobs, Job{Harness: "VX_C14_tojson", Params: P("shape", "empty", "namelen", "0", "n", "0", "strlen", "1")})
 			jobs = append(jobs, Job{Harness: "VX_C14_tojson", Params: P("shape", "concrete", "namelen", "0", "n", "1", "strlen", "1"), MaxSteps: 50000000})
+			jobs = append(jobs, Job{Harness: "VX_C14_tojson", Params: P("shape", "big", "namelen", "0", "n", "1", "strlen", "1"), MaxSteps: 400000000})
 			return jobs
 		},
 		Bounds: func(tier string) string {
@@ -765,6 +773,7 @@ func init() {
 					jobs = append(jobs, Job{Harness: "VX_C15_write", Params: P("op", op, "n", n)})
 				}
 			}
+			jobs = append(jobs, Job{Harness: "VX_C15_write_big", Params: P("op", "tojson", "n", "1100"), MaxSteps: 400000000}, Job{Harness: "VX_C15_write_big", Params: P("op", "tocsv", "n", "1100"), MaxSteps: 400000000})
 			jobs = append(jobs, Job{Harness: "VX_C15_sql", Params: P("what", "prepare", "at", "0")}, Job{Harness: "VX_C15_sql", Params: P("what", "query", "at", "0")})
 			for at := 0; at <= 3; at++ {
 				jobs = append(jobs, Job{Harness: "VX_C15_sql", Params: P("what", "next", "at", itoa(at))})
